@@ -215,7 +215,13 @@ func Ident(v any) string {
 // SimpleFilter returns a filter equation with a defined, unambiguous meaning.
 func (g *Gen) SimpleFilter() *jpref.Eq {
 	k := g.Keys[g.R.Intn(len(g.Keys))]
-	switch g.R.Intn(8) {
+	k2 := g.Keys[g.R.Intn(len(g.Keys))]
+	switch g.R.Intn(10) {
+	case 8:
+		// two multi-valued operands: true if ANY pairing satisfies the comparison
+		return Bin([]string{"lt", "gt", "eq"}[g.R.Intn(3)], P(At(), Child(k), Wild()), P(At(), Child(k2), Wild()))
+	case 9:
+		return Bin("and", Bin("gt", P(At(), Wild()), CInt(int64(g.R.Intn(30)))), Bin("lt", P(At(), Wild()), CInt(int64(g.R.Intn(30)))))
 	case 0:
 		return Bin("gt", P(At()), CInt(int64(g.R.Intn(40))))
 	case 1:
